@@ -169,7 +169,7 @@ def cmd_check(args):
         for e in b.errors[:5]:
             print("HARNESS-ERROR " + e.strip().replace("\n", "\n    "), flush=True)
         return 2
-    path = evidence.write(home(), args.prop, doc)
+    path = "(not written)" if args.no_evidence else evidence.write(home(), args.prop, doc)
     print(f"runs={agg['runs']} ops={agg['ops']} variants={int(stats.get('variants', 0))} "
           f"distinct={len(agg['sigs'])} det_pairs={agg['det_pairs'] + det_cross} wall={wall:.1f}s "
           f"({int(rate)} runs/h) evidence={path}")
@@ -206,6 +206,7 @@ def main(argv):
     ap.add_argument("--budget", type=float)
     ap.add_argument("--workers", type=int)
     ap.add_argument("--no-cross", action="store_true")
+    ap.add_argument("--no-evidence", action="store_true")
     ap.add_argument("--seed", type=int, default=int(os.environ.get("VERIF_SEED", "0") or 0))
     args = ap.parse_args(argv)
     try:
